@@ -465,6 +465,9 @@ SPECS["C01"] = ("""property C01: event JSON parsing is faithful to an independen
   ("C01_any_order_with_unknown_members",
    "forall e tj cj ms tail out, wf_event_json e -> tags_as_json (e_tags e) = Ok tj -> json_escape (e_content e) = Ok cj ->\n    Forall emem_ok ms -> NoDup (known ms) -> (forall k, In k (known ms)) -> event_size e <= len out ->\n    event_from_json (event_text_u e tj cj ms tail) out\n    = Ok (len (event_text_u e tj cj ms tail) - len tail, enc_event e, enc_event e ++ drop (event_size e) out)",
    "event_any_order_unknown", "the seven members in any order with ANY NUMBER of unknown members before, between and after them (keys the parser does not know; values any JSON value nested up to depth 128; the same unknown key may repeat): the parse is still exactly the canonical encoding of the seven field values"),
+  ("C01_any_order_unknown_members_and_white_space",
+   "forall e tj cj w0 ms tail out, wf_event_json e -> tags_as_json (e_tags e) = Ok tj -> json_escape (e_content e) = Ok cj ->\n    wsb w0 -> Forall wm_ok ms -> NoDup (known (map wm_m ms)) -> (forall k, In k (known (map wm_m ms))) -> event_size e <= len out ->\n    event_from_json (event_text_w e tj cj w0 ms tail) out\n    = Ok (len (event_text_w e tj cj w0 ms tail) - len tail, enc_event e, enc_event e ++ drop (event_size e) out)",
+   "event_any_order_ws", "the same with ANY AMOUNT OF WHITE SPACE (space, tab, LF, CR) before the opening brace and, for every member known or unknown, before its opening quote, between its name and the colon, between the colon and the value, and between the value and the following comma or closing brace; the consumed count is the length of all of that. (White space INSIDE the tags array is not covered by a theorem; it is compared per run.)"),
   ("C01_unknown_member_is_skipped",
    "forall key v K, skippable_str key -> jwf v -> jdepth v <= 128 -> vfollow K ->\n    burn_member (key ++ 34 :: 58 :: jtext v ++ K) = Ok K",
    "burn_member_skips", "the skipper: key, colon and a value tree of any shape (strings, numbers incl. exponents with a plus sign, true/false/null, arrays, objects) are consumed exactly, whatever follows; the fuel the parser supplies (twice the text length) always suffices"),
@@ -500,6 +503,35 @@ Proof.
     repeat constructor; try (apply P; repeat constructor; lia); try (intros rest; repeat split; reflexivity); try (cbn; lia);
       try (intros K; reflexivity).
   - cbn [known]. repeat constructor; cbn; intuition discriminate.
+  - intros k. destruct k; cbn; auto 8.
+  - eexists _, _. split; [vm_compute; reflexivity|split; [vm_compute; reflexivity|vm_compute; reflexivity]].
+Qed.
+(* non-vacuity with white space: before the brace, around every colon, after every value; unknown members too *)
+Example C01_ws_example :
+  let e := mkE (repeat 1 32) (repeat 2 32) (repeat 3 64) 1 1700000000 [[[101]; [91; 34; 93]]; []; [[]]] [104; 10; 34; 92; 195; 169] in
+  let u1 := EU [120] (JNum [49; 101; 43; 51]) in
+  let W m := mkWm m [32; 10] [9] [32; 32] [13; 10; 32] in
+  let ms := [W u1; W (EK KContent); mkWm (EK KSig) [] [] [] []; W (EK KTags); W (EK KId); mkWm (EK KKind) [10] [] [32] []; W (EK KPk); W u1; W (EK KCreated)] in
+  wf_event_json e /\\ wsb [32; 9; 10; 13] /\\ Forall wm_ok ms /\\ NoDup (known (map wm_m ms)) /\\ (forall k, In k (known (map wm_m ms))) /\\
+  exists tj cj, tags_as_json (e_tags e) = Ok tj /\\ json_escape (e_content e) = Ok cj /\\
+    event_from_json (event_text_w e tj cj [32; 9; 10; 13] ms [9; 9]) (repeat 170 (N.to_nat (event_size e) + 3))
+    = Ok (len (event_text_w e tj cj [32; 9; 10; 13] ms [9; 9]) - 2, enc_event e, enc_event e ++ [170; 170; 170]).
+Proof.
+  cbv zeta. split; [|split; [|split; [|split; [|split]]]].
+  - unfold wf_event_json. cbn [e_id e_pk e_sig e_kind e_created e_tags e_content].
+    assert (R : forall b n, b < 256 -> wf_bytes (repeat b n)) by (intros b n Hb; apply Forall_forall; intros x Hx; apply repeat_spec in Hx; subst x; exact Hb).
+    repeat apply conj; try (apply R; lia); try (vm_compute; reflexivity); try lia.
+    + repeat constructor.
+      * exists [101]. split; [repeat constructor; unfold scalar; lia|reflexivity].
+      * exists [91; 34; 93]. split; [repeat constructor; unfold scalar; lia|reflexivity].
+      * exists []. split; [constructor|reflexivity].
+    + exists [104; 10; 34; 92; 233]. split; [repeat constructor; unfold scalar; lia|vm_compute; reflexivity].
+  - repeat constructor.
+  - assert (P : forall key, Forall (fun c => c <> 34 /\\ c <> 92) key -> skippable_str key) by exact plain_skippable.
+    unfold wm_ok, wsb. cbn [wm_m wm_a wm_b wm_c wm_d].
+    repeat constructor; try (apply P; repeat constructor; lia); try (intros rest; repeat split; reflexivity); try (cbn; lia);
+      try (intros K; reflexivity).
+  - cbn [known map wm_m]. repeat constructor; cbn; intuition discriminate.
   - intros k. destruct k; cbn; auto 8.
   - eexists _, _. split; [vm_compute; reflexivity|split; [vm_compute; reflexivity|vm_compute; reflexivity]].
 Qed.
@@ -646,7 +678,7 @@ SPECS["C02"] = ("""property C02: event binary <-> JSON round trip is lossless an
    enc_event e and every accessor returns the field).  Losslessness through json_escape/json_unescape
    and canonicity across texts are decided per run by the differential check (5 texts per event,
    3 buffer fills, from_parts, python json on as_json's output, byte equality).""",
-  CODIMP + "\nFrom Pocket Require Import Ctor CtorProofs Access EscapeRoundTrip JsonRoundTrip EventAnyOrder.", [
+  CODIMP + "\nFrom Pocket Require Import Ctor CtorProofs Access EscapeRoundTrip JsonRoundTrip JsonSkip EventAnyOrder.", [
   ("C02_hex_roundtrip_partial", "forall bs, wf_bytes bs -> read_hex (write_hex bs) (len bs) = Ok bs", "read_write_hex", ""),
   ("C02_binary_form_is_function_of_fields_partial",
    "forall e out, wf_aevent e -> fits_event e -> event_size e <= len out ->\n    exists b, event_from_parts e out = Ok b /\\ take (event_size e) b = enc_event e /\\ drop (event_size e) b = drop (event_size e) out /\\\n              len b = len out /\\ ev_delineate b = Ok (enc_event e) /\\ event_accessors_ok e (enc_event e)",
@@ -657,6 +689,9 @@ SPECS["C02"] = ("""property C02: event binary <-> JSON round trip is lossless an
   ("C02_binary_form_independent_of_member_order",
    "forall e tj cj ms ms' tail tail' out, wf_event_json e -> tags_as_json (e_tags e) = Ok tj -> json_escape (e_content e) = Ok cj ->\n    NoDup ms -> (forall k, In k ms) -> NoDup ms' -> (forall k, In k ms') -> event_size e <= len out ->\n    exists c c', event_from_json (event_text e tj cj ms tail) out = Ok (c, enc_event e, enc_event e ++ drop (event_size e) out) /\\\n                 event_from_json (event_text e tj cj ms' tail') out = Ok (c', enc_event e, enc_event e ++ drop (event_size e) out)",
    "event_order_independent", "CANONICITY across member orders: two texts of the same event with the seven members in different orders (any two of the 5040), whatever follows the closing brace, parse to byte-identical binary events"),
+  ("C02_binary_form_independent_of_white_space",
+   "forall e tj cj w0 ms tail w0' ms' tail' out, wf_event_json e -> tags_as_json (e_tags e) = Ok tj -> json_escape (e_content e) = Ok cj ->\n    wsb w0 -> Forall wm_ok ms -> NoDup (known (map wm_m ms)) -> (forall k, In k (known (map wm_m ms))) ->\n    wsb w0' -> Forall wm_ok ms' -> NoDup (known (map wm_m ms')) -> (forall k, In k (known (map wm_m ms'))) ->\n    event_size e <= len out ->\n    exists c c', event_from_json (event_text_w e tj cj w0 ms tail) out = Ok (c, enc_event e, enc_event e ++ drop (event_size e) out) /\\\n                 event_from_json (event_text_w e tj cj w0' ms' tail') out = Ok (c', enc_event e, enc_event e ++ drop (event_size e) out)",
+   "event_ws_independent", "CANONICITY across member order, unknown members AND white space between the tokens of the object: any two such texts of one event parse to byte-identical binary events"),
   ("C02_tags_json_roundtrip",
    "forall ts tj tail F, JsonRoundTrip.valid_tags ts -> fits_tags ts -> tags_size ts <= len F ->\n    tags_as_json ts = Ok tj -> tags_from_json (tj ++ tail) F = Ok (len tj, enc_tags ts)",
    "tags_json_roundtrip", "Tags::from_json after Tags::as_json, whatever follows the text"),
